@@ -60,7 +60,7 @@ class Stats(object):
 
 
 class Engine(object):
-    def __init__(self, max_decisions=4000, timeout_ms=20000):
+    def __init__(self, max_decisions=4000, timeout_ms=60000):
         self.stats = Stats()
         self.max_decisions = max_decisions
         self.timeout_ms = timeout_ms
